@@ -569,10 +569,10 @@ def suite_e2e(ctx):
     fmts = ['h5', 'npz', 'json']
     k = 0
     for fn in ['forward', 'misfit', 'gradient']:
-        for variant in ['plain', 'noise', 'data', 'dry', 'save-load',
-                        'cache-clean']:
+        for variant in ['plain', 'noise', 'data', 'data-empty', 'dry',
+                        'save-load', 'cache-clean']:
             if not ctx.thorough and (k + ctx_seed(ctx)) % 2 and \
-                    variant in ('data', 'dry'):
+                    variant in ('data', 'data-empty', 'dry'):
                 k += 1
                 continue
             k += 1
@@ -583,7 +583,13 @@ def suite_e2e(ctx):
         for fn, variant, fmt in runs:
             d = os.path.join(tmp, f'{fn}-{variant}')
             os.makedirs(d)
-            emg3d.save(os.path.join(d, f'survey.{fmt}'), survey=survey, verb=0)
+            sv = survey
+            if variant == 'data-empty':
+                # one receiver without any observation: only `remove_empty`
+                # (the single key of [data]) can drop it
+                sv = survey.copy()
+                sv.data['observed'][:, 1, :] = np.nan
+            emg3d.save(os.path.join(d, f'survey.{fmt}'), survey=sv, verb=0)
             emg3d.save(os.path.join(d, f'model.{fmt}'), model=model, verb=0)
             cfg = (f"[files]\npath = {d}\nsurvey = survey.{fmt}\n"
                    f"model = model.{fmt}\noutput = out.{fmt}\n") + base
@@ -603,9 +609,16 @@ def suite_e2e(ctx):
                         ('noise_opts', 'min_offset', '150'),
                         ('noise_opts', 'ntype', 'gaussian_uncorrelated')]
             if variant == 'data':
-                cfg += "[data]\nsources = Tx-2\nreceivers = Rx-a, Rx-b\n"
-                ent += [('data', 'sources', 'Tx-2'),
-                        ('data', 'receivers', 'Rx-a, Rx-b')]
+                # any non-empty subset of the selection keys
+                sel = [('sources', 'Tx-2'), ('receivers', 'Rx-a, Rx-b'),
+                       ('frequencies', 'f-1')]
+                keep = [x for x in sel if rng.random() < 0.5] or \
+                    [sel[int(rng.integers(3))]]
+                cfg += "[data]\n" + ''.join(f'{a} = {b}\n' for a, b in keep)
+                ent += [('data', a, b) for a, b in keep]
+            if variant == 'data-empty':
+                cfg += "[data]\nremove_empty = True\n"
+                ent += [('data', 'remove_empty', 'True')]
             if variant == 'dry':
                 args.append('-d')
                 flags.append('dry_run')
